@@ -179,7 +179,11 @@ func VerifIndexSearch() {
 	rt.Assume(order <= 1)
 	withTotal := rt.NondetBool()
 
-	params := SearchParams{AST: ast, From: seq.MID(from), To: seq.MID(to), Limit: limit, WithTotal: withTotal, Order: order}
+	hist := uint64(0)
+	if rt.Param("HIST") == 1 {
+		hist = []uint64{0, 16, 1 << 20}[rt.Choose(3)]
+	}
+	params := SearchParams{AST: ast, From: seq.MID(from), To: seq.MID(to), Limit: limit, WithTotal: withTotal, Order: order, HistInterval: hist}
 	qpr, err := IndexSearch(context.Background(), params, x, AggLimits{}, stopwatch.New())
 	rt.Assert(err == nil, "no error")
 	rt.Reach("searched")
@@ -197,6 +201,28 @@ func VerifIndexSearch() {
 		}
 	}
 	total := len(want)
+	if hist > 0 {
+		// every matching document in range is counted once, in the bucket of its timestamp - also beyond the limit
+		rt.Assert(qpr.Histogram != nil, "histogram requested: returned")
+		for _, li := range want {
+			bi := x.mids[li] - x.mids[li]%hist
+			cnt := uint64(0)
+			for _, lj := range want {
+				if x.mids[lj]-x.mids[lj]%hist == bi {
+					cnt++
+				}
+			}
+			rt.Assert(qpr.Histogram[seq.MID(bi)] == cnt, "histogram bucket = number of matching documents of that interval")
+		}
+		sum := uint64(0)
+		for _, v := range qpr.Histogram {
+			sum += v
+		}
+		rt.Assert(sum == uint64(total), "histogram counts nothing but the matching documents")
+		rt.Reach("histogram")
+	} else {
+		rt.Assert(len(qpr.Histogram) == 0, "no histogram unless requested")
+	}
 	if len(want) > limit {
 		want = want[:limit]
 	}
